@@ -1,11 +1,12 @@
 //! Checks for topology, cluster node, RESP server and client.
 
 mod breaker;
+mod parse;
 mod topo;
 
 use vlib::Check;
 
 fn main() {
-    let checks: Vec<&dyn Check> = vec![&topo::C24, &topo::C13, &topo::C14, &breaker::C26];
+    let checks: Vec<&dyn Check> = vec![&topo::C24, &topo::C13, &topo::C14, &breaker::C26, &parse::C21];
     vlib::main_entry(&checks)
 }
